@@ -3,6 +3,7 @@ package gen
 import (
 	"context"
 	"fmt"
+	"io"
 	"strings"
 	"sync"
 	"time"
@@ -13,12 +14,14 @@ import (
 // HookSpec describes one user hook.
 type HookSpec struct {
 	ID   int
-	Kind int // 0 add fields, 1 discard, 2 read GetCtx, 3 noop, 4 LevelHook wrapper around an add hook, 5 HookFunc add, 6 Context.Timestamp() hook
+	Kind int // 0 add fields, 1 discard, 2 read GetCtx, 3 noop, 4 LevelHook wrapper around an add hook, 5 HookFunc add, 6 Context.Timestamp() hook,
+	// 7 add fields after logging a complete event through ANOTHER logger (re-entrancy while the outer event is open),
+	// 8 LevelHook with only the Info and Error slots set (the add hook runs for those levels only), 9 NewLevelHook() (all slots empty)
 	Ops  []*Op
 	Out  []KVI
 }
 
-var hookKindNames = [...]string{"add", "discard", "getctx", "noop", "levelhook", "hookfunc", "timestamp"}
+var hookKindNames = [...]string{"add", "discard", "getctx", "noop", "levelhook", "hookfunc", "timestamp", "add-after-nested-logging", "levelhook(info,error)", "levelhook(empty)"}
 
 // Step is one logger derivation step.
 type Step struct {
@@ -117,12 +120,12 @@ func (g *G) RandomSettings(full bool) Settings {
 func (g *G) GenHook(id int, allowDiscard bool) *HookSpec {
 	r := g.R
 	h := &HookSpec{ID: id}
-	h.Kind = []int{0, 0, 0, 1, 2, 3, 4, 5}[r.Intn(8)]
+	h.Kind = []int{0, 0, 0, 1, 2, 3, 4, 5, 7, 8, 9}[r.Intn(11)]
 	if h.Kind == 1 && !allowDiscard {
 		h.Kind = 0
 	}
 	switch h.Kind {
-	case 0, 4, 5:
+	case 0, 4, 5, 7, 8:
 		n := 1 + r.Intn(2)
 		st := false
 		for i := 0; i < n; i++ {
@@ -159,6 +162,7 @@ func (g *G) GenProgram(maxChain, maxEvents, maxOps int) *Program {
 	stack := false
 	goctx := ""
 	hookID := 0
+	rejected := false
 	nchain := r.Intn(maxChain + 1)
 	lastWith := false
 	for i := 0; i < nchain; i++ {
@@ -210,6 +214,9 @@ func (g *G) GenProgram(maxChain, maxEvents, maxOps int) *Program {
 		case choice == 9 || choice == 10:
 			st.Kind = "Hook"
 			n := 1 + r.Intn(2)
+			if r.Chance(1, 10) {
+				n = 0 // Hook() without arguments
+			}
 			for j := 0; j < n; j++ {
 				hookID++
 				h := g.GenHook(hookID, true)
@@ -226,6 +233,14 @@ func (g *G) GenProgram(maxChain, maxEvents, maxOps int) *Program {
 			// property: Output changes nothing but the destination.
 		default:
 			st.Kind = "Sample"
+			rejected = false // the latest sampler is the one that counts
+			if r.Chance(1, 8) {
+				st.Kind = "SampleReject" // from here on nothing is emitted and no hook runs
+				rejected = true
+			} else if r.Chance(1, 6) {
+				st.Kind = "SampleNil" // Sample(nil) removes a sampler
+				rejected = false
+			}
 		}
 		lastWith = strings.HasPrefix(st.Kind, "With")
 		st.Decoy = st.Kind != "UpdateContext" && r.Chance(1, 2)
@@ -258,6 +273,9 @@ func (g *G) GenProgram(maxChain, maxEvents, maxOps int) *Program {
 			if strings.HasPrefix(ev.Entry, "WriteIO") {
 				ev.Level = zerolog.NoLevel
 			}
+		case c == 9 && r.Chance(1, 3):
+			// Panic(): the event is written like any other, then the call panics (recovered by the executor)
+			ev.Entry, ev.Level = "Panic", zerolog.PanicLevel
 		default:
 			ev.Entry = "WithLevel"
 			ev.Level = zerolog.Level(r.Intn(9) - 1)
@@ -318,7 +336,7 @@ func (g *G) GenProgram(maxChain, maxEvents, maxOps int) *Program {
 		// expectation
 		var ex Expected
 		ex.Level = ev.Level
-		ex.Enabled = ev.Level != zerolog.Disabled && ev.Level >= level && ev.Level >= g.S.GlobalLevel
+		ex.Enabled = ev.Level != zerolog.Disabled && ev.Level >= level && ev.Level >= g.S.GlobalLevel && !rejected
 		if ex.Enabled {
 			var f []KVI
 			if ev.Level != zerolog.NoLevel && g.S.LevelFieldName != "" {
@@ -331,6 +349,9 @@ func (g *G) GenProgram(maxChain, maxEvents, maxOps int) *Program {
 				evctx = ev.EvCtx
 			}
 			for _, h := range hooks {
+				if h.Kind == 9 || (h.Kind == 8 && (ex.Discarded || (ev.Level != zerolog.InfoLevel && ev.Level != zerolog.ErrorLevel))) {
+					continue // no slot for that level: nothing runs
+				}
 				if h.Kind == 4 && (!stdLevel(ev.Level) || ex.Discarded) {
 					// LevelHook has no slot for custom levels; and once an earlier hook discarded the
 					// event the level handed to later hooks is Disabled (not regulated by C03), for
@@ -394,6 +415,8 @@ func (r *Rec) WriteLevel(l zerolog.Level, p []byte) (int, error) {
 	return len(p), nil
 }
 
+var nested = zerolog.New(io.Discard).With().Str("nested", "logger").Logger()
+
 type hookImpl struct {
 	spec *HookSpec
 	x    *Exec
@@ -403,7 +426,12 @@ type hookImpl struct {
 func (h hookImpl) Run(e *zerolog.Event, level zerolog.Level, msg string) {
 	hc := HookCall{ID: h.spec.ID, Level: level, Msg: msg}
 	switch h.spec.Kind {
-	case 0, 4, 5:
+	case 7:
+		// a complete event through another logger while the outer one is still open: pooled events and
+		// buffers change hands in the middle of the outer event
+		nested.Warn().Str("from", "hook").Int("id", h.spec.ID).Dict("d", zerolog.Dict().Str("a", "b")).Msg("nested")
+		fallthrough
+	case 0, 4, 5, 8:
 		for _, op := range h.spec.Ops {
 			h.x.applyEvent(e, op)
 		}
@@ -435,6 +463,10 @@ func (x *Exec) mkHook(h *HookSpec, log *[]HookCall) zerolog.Hook {
 		return zerolog.LevelHook{NoLevelHook: hi, TraceHook: hi, DebugHook: hi, InfoHook: hi, WarnHook: hi, ErrorHook: hi, FatalHook: hi, PanicHook: hi}
 	case 5:
 		return zerolog.HookFunc(hi.Run)
+	case 8:
+		return zerolog.LevelHook{InfoHook: hi, ErrorHook: hi}
+	case 9:
+		return zerolog.NewLevelHook()
 	}
 	return hi
 }
@@ -482,6 +514,10 @@ func (x *Exec) BuildLogger(base zerolog.Logger, chain []Step, out *Rec, hookLog 
 			l = l.Output(out)
 		case "Sample":
 			l = l.Sample(admitAll{})
+		case "SampleReject":
+			l = l.Sample(rejectAll{})
+		case "SampleNil":
+			l = l.Sample(nil)
 		}
 		if st.Decoy {
 			// siblings derived from the same parent after the fact; if any of their state leaks into the
@@ -494,6 +530,10 @@ func (x *Exec) BuildLogger(base zerolog.Logger, chain []Step, out *Rec, hookLog 
 	}
 	return l
 }
+
+type rejectAll struct{}
+
+func (rejectAll) Sample(zerolog.Level) bool { return false }
 
 type decoyHook struct{}
 
@@ -516,6 +556,8 @@ func StartEvent(l *zerolog.Logger, ev *EventSpec) *zerolog.Event {
 		return l.Log()
 	case "Err":
 		return l.Err(ev.Err)
+	case "Panic":
+		return l.Panic()
 	}
 	return l.WithLevel(ev.Level)
 }
@@ -551,14 +593,26 @@ func (x *Exec) Run(p *Program) (res Result) {
 			res.Hooks = append(res.Hooks, append([]HookCall(nil), hookLog[h0:]...))
 			continue
 		}
-		e := StartEvent(&l, ev)
-		if ev.EvCtx != "" {
-			e = e.Ctx(context.WithValue(context.Background(), ctxKey{}, ev.EvCtx))
-		}
-		for _, op := range ev.Ops {
-			e = x.applyEvent(e, op)
-		}
-		Finish(e, ev)
+		func() {
+			if ev.Entry == "Panic" {
+				defer func() {
+					// the finalizer of a Panic() event panics with the message; anything else is passed on
+					if r := recover(); r != nil {
+						if _, ok := r.(string); !ok {
+							panic(r)
+						}
+					}
+				}()
+			}
+			e := StartEvent(&l, ev)
+			if ev.EvCtx != "" {
+				e = e.Ctx(context.WithValue(context.Background(), ctxKey{}, ev.EvCtx))
+			}
+			for _, op := range ev.Ops {
+				e = x.applyEvent(e, op)
+			}
+			Finish(e, ev)
+		}()
 		res.Writes = append(res.Writes, append([]Write(nil), rec.W[w0:]...))
 		res.Hooks = append(res.Hooks, append([]HookCall(nil), hookLog[h0:]...))
 	}
